@@ -21,6 +21,8 @@ import (
 
 	"github.com/DataDog/datadog-go/v5/statsd"
 	"go.uber.org/zap"
+
+	"github.com/mimiro-io/datahub/internal/verifhook"
 )
 
 type raffle struct {
@@ -66,8 +68,11 @@ func (r *raffle) borrowTicket(job *job) *ticket {
 	tags := []string{
 		"application:datahub",
 	}
+	verifhook.Acquire(r, "raffle.mu", r)
 	r.runningMu.Lock()
+	defer verifhook.Release(r, "raffle.mu", r)
 	defer r.runningMu.Unlock()
+	verifhook.Access(r, "raffle.running", true)
 
 	_, ok := r.runningJobs[job.id] // is the job running
 	if ok {                        // it is, don't give a ticket
@@ -116,8 +121,11 @@ func (r *raffle) returnTicket(ticket *ticket) {
 	tags := []string{
 		"application:datahub",
 	}
+	verifhook.Acquire(r, "raffle.mu", r)
 	r.runningMu.Lock()
+	defer verifhook.Release(r, "raffle.mu", r)
 	defer r.runningMu.Unlock()
+	verifhook.Access(r, "raffle.running", true)
 
 	delete(r.runningJobs, ticket.runState.id)
 	if ticket.runState.isFull {
@@ -130,6 +138,7 @@ func (r *raffle) returnTicket(ticket *ticket) {
 }
 
 func (r *raffle) runningJob(jobid string) *runState {
+	verifhook.Access(r, "raffle.running", false)
 	state, ok := r.runningJobs[jobid]
 	if ok {
 		return state
@@ -138,5 +147,6 @@ func (r *raffle) runningJob(jobid string) *runState {
 }
 
 func (r *raffle) getRunningJobs() map[string]*runState {
+	verifhook.Access(r, "raffle.running", false)
 	return r.runningJobs
 }
